@@ -15,7 +15,7 @@ CONF = {
     "C01": (1, [("conc", 96, 1200), ("mixed", 64, 800), ("admit", 48, 600)]),
     "C02": (2, [("graph", 112, 1400), ("fail", 64, 800), ("mixed", 32, 400)]),
     "C03": (3, [("live", 96, 1200), ("delay", 64, 800), ("reload", 48, 600)]),
-    "C04": (4, [("cancel", 128, 1600), ("mixed", 80, 800)]),
+    "C04": (4, [("cancel", 112, 1400), ("mixed", 64, 700), ("shutdown", 40, 400)]),
     "C05": (5, [("admit", 128, 1600), ("mixed", 80, 800)]),
     "C06": (6, [("fifo", 128, 1600), ("mixed", 80, 800)]),
     "C07": (7, [("delay", 128, 1600), ("mixed", 80, 800)]),
